@@ -213,7 +213,10 @@ def trr_cases(draw):
     return {"kind": "trr", "natoms": n, "frames": frames, "endian": draw(st.sampled_from([">", "<"])), "double": draw(st.booleans()),
             "with_v": draw(st.booleans()), "with_f": draw(st.sampled_from([False, False, True])), "with_box": draw(st.sampled_from([True, True, False])),
             "cuts": draw(st.lists(st.floats(0, 1), min_size=0, max_size=6)), "adjacent": draw(st.booleans()),
-            "mode": draw(st.sampled_from(["single-cuts", "multi"])), "stride": draw(st.sampled_from([1, 3, 7])), "exit_with_last": draw(st.booleans())}
+            "mode": draw(st.sampled_from(["single-cuts", "multi"])), "stride": draw(st.sampled_from([1, 3, 7])), "exit_with_last": draw(st.booleans()),
+            # velocities / forces written at other intervals than positions: frames of different size (None: all frames alike)
+            "v_on": draw(st.one_of(st.none(), st.lists(st.booleans(), min_size=nf, max_size=nf))),
+            "f_on": draw(st.one_of(st.none(), st.none(), st.lists(st.booleans(), min_size=nf, max_size=nf)))}
 
 
 def trr_file(c):
@@ -221,8 +224,8 @@ def trr_file(c):
     n = c["natoms"]
     for k, fr in enumerate(c["frames"]):
         x = fr["x"]
-        v = fr["v"] if c["with_v"] else None
-        f = [0.5 * a for a in fr["x"]] if c["with_f"] else None
+        v = fr["v"] if (c["v_on"][k] if c.get("v_on") else c["with_v"]) else None
+        f = [0.5 * a for a in fr["x"]] if (c["f_on"][k] if c.get("f_on") else c["with_f"]) else None
         box = fr["box"] if c["with_box"] else None
         raw, hl = trrref.encode_frame(n, k * 10, k * 0.002, 0.0, box=box, x=x, v=v, f=f, endian=c["endian"], double=c["double"])
         hdr_ends.append(len(data) + hl)
@@ -333,6 +336,8 @@ def body_trr(rec, c):
                 classes.append("trr:frame-delivered-while-writer-running")
             if c.get("exit_with_last"):
                 classes.append("trr:writer-exits-with-its-last-flush")
+            if (c.get("v_on") and len(set(c["v_on"])) > 1) or (c.get("f_on") and len(set(c["f_on"])) > 1):
+                classes.append("trr:frames-of-different-size")
             if in_hdr:
                 classes.append("trr:cut-inside-a-header")
             rec.case(key=f"{fd}:{sched}", nontrivial=inside and (live > 0 or len(data) < 1200), classes=classes,
